@@ -771,11 +771,11 @@ fn search(oracle: &str, seed: u64) -> Outcome {
             }
             // ------------------------------------------------ C05 / C06 / C18: pictures of 1..3 tokens x rendered and perturbed texts
             "parse_grid" => {
-                domain = "every blank-separated picture of 1..=3 tokens from 18 input tokens x texts rendered from 7 values (+ one out-of-range / mismatching component each), parsed as Date, Time and Timestamp; clock = the crate's own Date::now()";
+                domain = "every blank-separated picture of 1..=3 tokens from 18 input tokens x texts rendered from 10 values (+ one out-of-range / mismatching component each), parsed as Date, Time and Timestamp; clock = the crate's own Date::now()";
                 exhaustive = false;
                 let (ny, nm, _) = { let (y, m, d) = Date::now().unwrap().extract(); (y as i64, m as i64, d as i64) };
                 let input_toks: Vec<(Tok, &str)> = TOKS.iter().cloned().filter(|(t, _)| !matches!(t, Tok::W | Tok::Ww)).collect();
-                let vals: [(i64, i64, i64, i64); 7] = [(2024, 2, 29, 0), (1900, 4, 10, 86_399_999_999), (2023, 12, 31, 86_399_999_999), (ny, nm, 1, 43_200_000_000), (1999, 6, 21, 13 * 3_600_000_000 + 5 * 60_000_000 + 9_000_000 + 123_456),
+                let vals: [(i64, i64, i64, i64); 10] = [(2024, 2, 29, 0), (1900, 4, 10, 86_399_999_999), (2023, 12, 31, 86_399_999_999), (2024, 8, 31, 0), (2024, 10, 1, 0), (2024, 12, 31, 0), (ny, nm, 1, 43_200_000_000), (1999, 6, 21, 13 * 3_600_000_000 + 5 * 60_000_000 + 9_000_000 + 123_456),
                     (2020, 12, 31, 12 * 3_600_000_000 + 59 * 60_000_000), (1, 1, 1, 3_600_000_000)];
                 let n = input_toks.len();
                 let mut pics: Vec<Vec<usize>> = Vec::new();
@@ -819,9 +819,9 @@ fn search(oracle: &str, seed: u64) -> Outcome {
             }
             // ------------------------------------------------ C04: every token on its own and in pairs
             "format_grid" => {
-                domain = "every picture of 1..=2 tokens from 20 tokens x 8 values, formatted as Date, Time, Timestamp and IntervalDT (applicability only for the interval)";
+                domain = "every picture of 1..=2 tokens from 20 tokens x 14 values, formatted as Date, Time, Timestamp and IntervalDT (applicability only for the interval)";
                 exhaustive = false;
-                let vals: [(i64, i64, i64, i64); 8] = [(2024, 2, 29, 0), (2023, 12, 31, 86_399_999_999), (2021, 8, 22, 43_200_000_000), (1999, 6, 21, 13 * 3_600_000_000 + 5 * 60_000_000 + 9_000_000 + 123_456),
+                let vals: [(i64, i64, i64, i64); 14] = [(2024, 2, 29, 0), (2024, 3, 1, 0), (2023, 3, 1, 0), (2024, 8, 31, 1), (2024, 10, 7, 2), (2024, 12, 31, 3), (2021, 1, 29, 4), (2023, 12, 31, 86_399_999_999), (2021, 8, 22, 43_200_000_000), (1999, 6, 21, 13 * 3_600_000_000 + 5 * 60_000_000 + 9_000_000 + 123_456),
                     (2020, 12, 31, 12 * 3_600_000_000 + 59 * 60_000_000), (1, 1, 1, 3_600_000_000), (9999, 12, 31, 11 * 3_600_000_000 + 59 * 60_000_000 + 59_999_999), (1969, 7, 20, 1)];
                 let n = TOKS.len();
                 let mut pics: Vec<Vec<usize>> = Vec::new();
